@@ -573,7 +573,8 @@ impl Sim for SimA {
         vec![
             "consistent_exchange_in_order_network(fault-free)",
             "consistent_exchange_faulty_network",
-            "adversarial_reports",
+            "adversarial_reports(filled is a function of exchange time)",
+            "adversarial_reports_unconstrained(any filled quantity at any timestamp)",
         ]
     }
     fn default_runs(&self) -> (u64, u64) {
@@ -1309,7 +1310,8 @@ fn plan_a(prop: PropA, rng: &mut Rng, sub: usize) -> ScenarioA {
     let mut msgs: Vec<(i64, u64, OpA, Option<String>)> = Vec::new();
     let mut seq = 0u64;
     let faulty = sub == 1;
-    let adversarial = sub == 2;
+    let adversarial = sub >= 2;
+    let unconstrained = sub == 3;
 
     // physical law for adversarial reports: per order, filled quantity is a non-decreasing
     // *function* of exchange time (so a 'fully filled' report is never contradicted by a newer one)
@@ -1324,7 +1326,18 @@ fn plan_a(prop: PropA, rng: &mut Rng, sub: usize) -> ScenarioA {
             v
         })
         .collect();
-    let filled_at = |ord: usize, t: i64| fill_times[ord].iter().filter(|x| **x <= t).count() as i64;
+    // sub-batch 3 drops the law: any filled quantity may come with any timestamp (the statement
+    // quantifies over reports with *any* exchange timestamp, including contradictory stale ones)
+    let law_seed = rng.next_u64();
+    let filled_at = |ord: usize, t: i64| -> i64 {
+        if unconstrained {
+            let mut x = law_seed ^ (ord as u64).wrapping_mul(0x9E37) ^ (t as u64).wrapping_mul(0xA24B_AED4_963E_E407);
+            let r = crate::kit::rng::splitmix(&mut x);
+            (r % (orders[ord].qty as u64 + 1)) as i64
+        } else {
+            fill_times[ord].iter().filter(|x| **x <= t).count() as i64
+        }
+    };
 
     if !adversarial {
         // ---- consistent exchange: ground-truth script per order ---------------------------
